@@ -503,7 +503,6 @@ func Iterate(val Value, it Iteratee) (int, error) {
 		}
 		return ln, nil
 	case reflect.Map:
-		keys := r.MapKeys()
 		ln := r.Len()
 		l := Loop{
 			ln == 1,
@@ -514,9 +513,11 @@ func Iterate(val Value, it Iteratee) (int, error) {
 			true,
 			ln,
 		}
-		for i, k := range keys {
-			v := r.MapIndex(k)
-			brk, err := it(k.Interface(), v.Interface(), l)
+		// Walk the entries rather than looking each key up again: a key
+		// such as NaN is never found by a lookup.
+		iter := r.MapRange()
+		for i := 0; iter.Next(); i++ {
+			brk, err := it(iter.Key().Interface(), iter.Value().Interface(), l)
 			if brk || err != nil {
 				return i + 1, err
 			}
